@@ -11,15 +11,16 @@
    line of the file without a line end, loses that line) is a counterexample, proved here:
      C02_roundtrip_statement_refuted_by_D7
    PROVED FOR ALL WELL-FORMED TREES EXCEPT THE SHAPE OF D7, for ALL layouts cs:
-     C02_roundtrip_wellformed_partial          the statement with ONE extra premise, WfComplete.comments_end_ok t: the
-                                               last line of every comment (stand-alone or attached) contains a byte
-                                               other than a space.  Nothing else is excluded: every tree with
-                                               wf_resource t, wf_utf8_resource t and comments_end_ok t parses back,
-                                               without errors, to a tree that joins to t
+     C02_roundtrip_wellformed_partial          the statement with ONE extra premise, RoundTrip.last_comment_ok t: if
+                                               the LAST entry of t is a stand-alone comment (#, ## or ###), its last
+                                               line is not empty.  Nothing else is excluded: every tree with
+                                               wf_resource t, wf_utf8_resource t and last_comment_ok t parses back,
+                                               without errors, to a tree that joins to t.  (Comments whose last line
+                                               consists of spaces, and comments with an empty last line anywhere but
+                                               at the very end of the resource, are covered.)
      C02_layout_independent_wellformed_partial the parsed tree (joined) does not depend on the layout, same premises
-   (excluded by the premise: a comment whose last line is empty -- D7, where the statement is false when that
-   comment is printed last without a final line end -- and, more than necessary, a comment whose last line
-   consists of spaces only, and a comment with an empty last line in a position where it is harmless.)
+   The premise excludes exactly the shape of finding D7 (printed last and without a final line end, the empty
+   last line of the comment is the bare "#" at the end of the input, which the parser drops).
    How: the fragments nest_resource d below (RoundTripNest.v; d = nesting depth) extend sel_resource d by NESTED
    CALL ARGUMENTS: a positional argument may be any inline expression (a call, a term attribute, a placeable
    that holds any expression, select expressions included); and WfComplete.v proves that they are COMPLETE:
@@ -27,8 +28,10 @@
      C02_nested_is_wellformed                  nest_resource d lies inside wf_resource
      C02_nested_depth_monotone                 nest_resource d is contained in nest_resource d' for d <= d'
      C02_select_in_nested                      sel_resource d is contained in nest_resource (d+1)
-     C02_wellformed_in_nested                  wf_resource t, wf_utf8_resource t, comments_end_ok t  imply
-                                               nest_resource d t for some d
+     C02_wellformed_in_nested                  wf_resource t and wf_utf8_resource t imply nest_resource d t for
+                                               some d (no condition on comments: the fragments contain ALL
+                                               well-formed trees; the theorems about them have the premise
+                                               last_comment_ok t)
    PROVED FOR THE FRAGMENTS sel_resource d (RoundTripSel.v; d = nesting depth of placeables, any d), for ALL
    layouts cs (RoundTripML.v: the pattern level, generic in the placeables; EntryLoop.v: the entry level):
      C02_roundtrip_select_partial              the statement restricted to the fragment
@@ -74,8 +77,8 @@
        not start with a space or a line break and does not end with one.  A message may have no value if it
        has attributes; identifiers, numbers and strings well-formed.
      A comment (attached or stand-alone) has at least one line; no CR LF in a line; the first byte of a line
-     is not a UTF-8 continuation byte; lines may be empty or consist of spaces only, except the LAST line,
-     which contains a byte other than a space (D7).
+     is not a UTF-8 continuation byte; lines may be empty or consist of spaces only.  The theorems have the
+     premise last_comment_ok t (D7: the last entry is not a stand-alone comment with an empty last line).
    All layouts render can choose for such trees are covered: 0-2 spaces before and after '=', inline or
    block start of each value (with an optional blank line), the indentation of the lines of a value after
    a line break (4-6 spaces, 8-10 in an attribute, the same for all lines of the value; the parser removes
@@ -92,7 +95,7 @@
    next comment) plus 0-2 more between any two entries, 0-2 spaces on blank
    lines, LF or CRLF at every line end (also inside a value), final line end absent / present / followed by a
    blank line.  (The proof covers more: any indentation >= 1, any number of spaces and blank lines.)
-   EXCLUDED from sel_resource d: comments whose last line is empty or whitespace-only; call arguments that are
+   EXCLUDED from sel_resource d: call arguments that are
    themselves calls (function references, term references with arguments or attribute) or placeables (these
    are in nest_resource d); term references with attribute outside a selector or an argument (the grammar
    forbids them there) and message references / term references without attribute as selectors (likewise); Junk.
@@ -110,15 +113,15 @@ Definition C02_roundtrip_statement : Prop :=
   forall cs t, wf_resource t = true -> wf_utf8_resource t = true ->
   exists t', parse (render cs t) = Done (t', []) /\ map join_entry t' = t.
 
-(* the statement for ALL well-formed trees but those of the shape of finding D7: the last line of every comment
-   contains a byte other than a space (WfComplete.comments_end_ok; see C02_roundtrip_statement_refuted_by_D7) *)
+(* the statement for ALL well-formed trees but those of the shape of finding D7: if the last entry is a stand-alone
+   comment, its last line is not empty (RoundTrip.last_comment_ok; see C02_roundtrip_statement_refuted_by_D7) *)
 Theorem C02_roundtrip_wellformed_partial :
-  forall cs t, wf_resource t = true -> wf_utf8_resource t = true -> comments_end_ok t = true ->
+  forall cs t, wf_resource t = true -> wf_utf8_resource t = true -> last_comment_ok t = true ->
   exists t', parse (render cs t) = Done (t', []) /\ map join_entry t' = t.
 Proof. exact parse_render_wf. Qed.
 
 Theorem C02_layout_independent_wellformed_partial :
-  forall cs1 cs2 t, wf_resource t = true -> wf_utf8_resource t = true -> comments_end_ok t = true ->
+  forall cs1 cs2 t, wf_resource t = true -> wf_utf8_resource t = true -> last_comment_ok t = true ->
   exists t1 t2, parse (render cs1 t) = Done (t1, []) /\ parse (render cs2 t) = Done (t2, []) /\
                 map join_entry t1 = map join_entry t2.
 Proof.
@@ -128,7 +131,7 @@ Qed.
 
 (* the fragments with nested call arguments, and their completeness *)
 Theorem C02_roundtrip_nested_partial :
-  forall d cs t, nest_resource d t = true ->
+  forall d cs t, nest_resource d t = true -> last_comment_ok t = true ->
   exists t', parse (render cs t) = Done (t', []) /\ map join_entry t' = t.
 Proof. exact parse_render_nest. Qed.
 
@@ -142,12 +145,12 @@ Theorem C02_select_in_nested : forall d t, sel_resource d t = true -> nest_resou
 Proof. exact sel_resource_nest. Qed.
 
 Theorem C02_wellformed_in_nested :
-  forall t, wf_resource t = true -> wf_utf8_resource t = true -> comments_end_ok t = true -> exists d, nest_resource d t = true.
+  forall t, wf_resource t = true -> wf_utf8_resource t = true -> exists d, nest_resource d t = true.
 Proof. exact wf_resource_nest. Qed.
 
 (* the same statement for the trees of the fragments (no UTF-8 premise needed there); d: nesting depth *)
 Theorem C02_roundtrip_select_partial :
-  forall d cs t, sel_resource d t = true ->
+  forall d cs t, sel_resource d t = true -> last_comment_ok t = true ->
   exists t', parse (render cs t) = Done (t', []) /\ map join_entry t' = t.
 Proof. exact parse_render_sel. Qed.
 
@@ -156,12 +159,12 @@ Proof. exact sel_resource_wf. Qed.
 
 (* layout independence on the fragment: "the tree does not depend on layout choices" *)
 Theorem C02_layout_independent_select_partial :
-  forall d cs1 cs2 t, sel_resource d t = true ->
+  forall d cs1 cs2 t, sel_resource d t = true -> last_comment_ok t = true ->
   exists t1 t2, parse (render cs1 t) = Done (t1, []) /\ parse (render cs2 t) = Done (t2, []) /\
                 map join_entry t1 = map join_entry t2.
 Proof.
-  intros d cs1 cs2 t Ht. destruct (parse_render_sel d cs1 t Ht) as (t1 & E1 & J1).
-  destruct (parse_render_sel d cs2 t Ht) as (t2 & E2 & J2). exists t1, t2. rewrite J1, J2. auto.
+  intros d cs1 cs2 t Ht Hl. destruct (parse_render_sel d cs1 t Ht Hl) as (t1 & E1 & J1).
+  destruct (parse_render_sel d cs2 t Ht Hl) as (t2 & E2 & J2). exists t1, t2. rewrite J1, J2. auto.
 Qed.
 
 Theorem C02_select_depth_monotone : forall d t, sel_resource d t = true -> sel_resource (S d) t = true.
@@ -170,7 +173,7 @@ Proof. exact sel_resource_mono. Qed.
 (* depth 0: multi-line patterns whose placeables hold an inline expression of CallArgs.binline (references,
    literals, function / term references with call arguments) *)
 Theorem C02_roundtrip_multiline_partial :
-  forall cs t, sel_resource 0 t = true ->
+  forall cs t, sel_resource 0 t = true -> last_comment_ok t = true ->
   exists t', parse (render cs t) = Done (t', []) /\ map join_entry t' = t.
 Proof. exact (parse_render_sel 0). Qed.
 
@@ -178,7 +181,7 @@ Theorem C02_multiline_is_wellformed : forall t, sel_resource 0 t = true -> wf_re
 Proof. exact (sel_resource_wf 0). Qed.
 
 Theorem C02_layout_independent_multiline_partial :
-  forall cs1 cs2 t, sel_resource 0 t = true ->
+  forall cs1 cs2 t, sel_resource 0 t = true -> last_comment_ok t = true ->
   exists t1 t2, parse (render cs1 t) = Done (t1, []) /\ parse (render cs2 t) = Done (t2, []) /\
                 map join_entry t1 = map join_entry t2.
 Proof. exact (C02_layout_independent_select_partial 0). Qed.
@@ -392,10 +395,24 @@ Proof. rt. Qed.
 (* the premises of C02_roundtrip_wellformed_partial hold for the examples above; the tree of D7 fails the third *)
 Example C02_example_wellformed_premises :
   forall t, In t [ex_simple; ex_ml; ex_sel; ex_select; ex_calls; ex_nested_args; ex_multiline] ->
-  wf_resource t = true /\ wf_utf8_resource t = true /\ comments_end_ok t = true.
+  wf_resource t = true /\ wf_utf8_resource t = true /\ last_comment_ok t = true.
 Proof. intros t Ht. repeat (destruct Ht as [<- | Ht]; [vm_compute; auto|]). destruct Ht. Qed.
-Example C02_example_D7_premise : wf_resource [CommentEntry (Comment [[]])] = true /\ comments_end_ok [CommentEntry (Comment [[]])] = false.
+Example C02_example_D7_premise : wf_resource [CommentEntry (Comment [[]])] = true /\ last_comment_ok [CommentEntry (Comment [[]])] = false.
 Proof. split; reflexivity. Qed.
+
+(* comments that the earlier versions of the fragment excluded and that are covered now: an empty last line that is
+   not at the end of the resource, an attached comment that is one empty line, a last line of spaces at the end *)
+Definition ex_comments : resource :=
+  [ResourceComment (Comment [b "r"; []]);
+   Message (b "m") (Some (Pattern [TextElement (b "x")])) [] (Some (Comment [[]]));
+   CommentEntry (Comment [b "a"; b "  "])].
+Example C02_example_comments_premises :
+  wf_resource ex_comments = true /\ wf_utf8_resource ex_comments = true /\ last_comment_ok ex_comments = true.
+Proof. vm_compute. auto. Qed.
+Example C02_example_comments_1 : roundtrips_under [] ex_comments.
+Proof. rt. Qed.
+Example C02_example_comments_2 : roundtrips_under [2;1;3;1;2;2;3;1;0;2;3;1;2;1;3;2;2;1] ex_comments.
+Proof. rt. Qed.
 
 (* the layouts really differ *)
 Example C02_example_layouts_differ :
